@@ -416,6 +416,26 @@ class Interp(object):
                 self._havoc(state, pre)
             self.setenv(ins.i, ret)
             return
+        if self.collecting and self.store_atoms and callee in self.mod.funcs and callee not in self.atom_spec:
+            # a loop that was moved into a static leaf helper: its parameter-rooted stores, seen from here
+            from .summ import store_summary, SummStore, join_path
+            summ = store_summary(self.mod, self.mod.funcs[callee])
+            for (k, sfx, roots, unknown) in (summ or []):
+                a = args[k] if k < len(args) else None
+                if not (a and a[0] == "p"):
+                    continue
+                rs = set()
+                for (k2, sfx2) in roots:
+                    b = args[k2] if k2 < len(args) else None
+                    if b and b[0] == "p":
+                        rs.add(fmt_path(join_path(b[1], sfx2), self.f))
+                    elif not sfx2:
+                        pass                       # a scalar argument (a count, a stride): not a memory root
+                    else:
+                        rs.add("?")
+                if unknown:
+                    rs.add("?")
+                self._store_atom(SummStore(ins, rs), join_path(a[1], sfx), TOP, state)
         if callee == "lsame_":
             a = self.chr_of(args[0], state); b = self.chr_of(args[1], state)
             if a is not None and b is not None and a != "" and b != "":
